@@ -12,6 +12,7 @@ import Golib.Proof.C20Str
 import Golib.Proof.C20Utf8
 import Golib.Proof.C20Count
 import Golib.Proof.C20Numeral
+import Golib.Proof.C20Value
 
 namespace Golib.C20
 open Golib.Gen.C20
@@ -63,6 +64,31 @@ theorem c20_base32_accepts (bs : List Nat) (hall : ∀ b ∈ bs, b ∈ alphabet)
   have := (hs.reject c (hlt c (hall c hc))).mp (by rw [List.getElem?_eq_getElem hc256, hm])
   exact this (hall c hc)
 
+/-- The VALUE returned for a string over the alphabet, of any length: Horner's rule over
+the positions of its characters in the alphabet (`numeralValue`, unbounded), wrapped to
+`int64` exactly as the accumulator `id*32 + d` wraps in Go.  It is the exact value whenever
+that is below 2^63 — in particular for every string of at most 12 characters — so strings
+of 13 or more characters can silently overflow (no error is returned; such inputs are not
+numerals of any ID unless the value is below 2^63, see `c20_base32_roundtrip`). -/
+theorem c20_base32_value (bs : List Nat) (hall : ∀ b ∈ bs, b ∈ alphabet) :
+    parseBase32 bs = .ok (toInt64 (numeralValue bs)) ∧
+    (numeralValue bs < 2 ^ 63 → parseBase32 bs = .ok (numeralValue bs)) ∧
+    (bs.length ≤ 12 → numeralValue bs < 2 ^ 63) := by
+  obtain ⟨t, ht, hs⟩ := decodeTable_spec
+  have hv : parseBase32 bs = .ok (toInt64 (numeralValue bs)) := by
+    rw [parseBase32_eq t ht]; exact parse_value_with t hs bs hall
+  refine ⟨hv, fun h => by rw [hv, toInt64_small _ h], fun hl => ?_⟩
+  have h1 := numeralValue_lt bs hall
+  have h2 : 32 ^ bs.length ≤ 32 ^ 12 := Nat.pow_le_pow_right (by decide) hl
+  have h3 : 32 ^ 12 < 2 ^ 63 := by decide
+  omega
+
+/-- Non-vacuity: 13 characters that overflow (`"8000000000000"` = 2^63 wraps to −2^63) and
+14 that wrap to a small positive value (`"g0000000000001"` = 2^69 + 1 ↦ 1). -/
+example : parseBase32 [56, 48, 48, 48, 48, 48, 48, 48, 48, 48, 48, 48, 48] = .ok (-(2 ^ 63)) ∧
+    parseBase32 [103, 48, 48, 48, 48, 48, 48, 48, 48, 48, 48, 48, 48, 49] = .ok 1 := by
+  constructor <;> decide +kernel
+
 /-- Non-vacuity: a concrete ID, its numeral, and a rejected input (`"1!"`). -/
 example : base32 1234567 = some [49, 53, 110, 109, 55] ∧ parseBase32 [49, 33] = .invalid := by
   constructor <;> decide +kernel
@@ -97,6 +123,26 @@ theorem c20_id_layout (req ms r : Int) (hr0 : 0 ≤ r) (hr1 : r < (newIdGen req)
   rw [hrb]
   simp only [Int.toNat_natCast]
   exact h
+
+/-- "IDs taken at least a millisecond apart are increasing": `Generate()` reads
+`time.Since(startTime).Milliseconds()` (truncated division of the nanosecond count by 10^6);
+if two calls see elapsed times `d1 ≥ 0` and `d2 ≥ d1 + 1 ms` (nanoseconds, both before the
+41-bit millisecond field is exhausted: 2^41 ms ≈ 69.7 years after the start time), the
+second ID is strictly larger, whatever the two random parts and the requested `randBit`. -/
+theorem c20_id_increasing (req d1 d2 r1 r2 : Int) (h0 : 0 ≤ d1) (hstep : d1 + 1000000 ≤ d2)
+    (hlim : millis d2 < 2 ^ 41)
+    (hr1 : 0 ≤ r1 ∧ r1 < (newIdGen req).randMax) (hr2 : 0 ≤ r2 ∧ r2 < (newIdGen req).randMax) :
+    idGenerate (newIdGen req) d1 r1 < idGenerate (newIdGen req) d2 r2 := by
+  obtain ⟨hm0, hm1⟩ := millis_step d1 d2 h0 hstep
+  have e1 : millis d1 % 2 ^ 41 = millis d1 := Int.emod_eq_of_lt hm0 (by omega)
+  have e2 : millis d2 % 2 ^ 41 = millis d2 := Int.emod_eq_of_lt (by omega) hlim
+  exact (c20_id_layout req (millis d1) r1 hr1.1 hr1.2).2.2.2.2 (millis d2) r2 hr2.1 hr2.2
+    (by rw [e1, e2]; omega)
+
+/-- Non-vacuity: 0.9999 ms and 1.9999 ms after the start (exactly 1 ms apart), largest
+random part first. -/
+example : idGenerate (newIdGen 2) 999900 3 = 3 ∧ idGenerate (newIdGen 2) 1999900 0 = 4 := by
+  constructor <;> decide +kernel
 
 /-- Non-vacuity: the default generator (18 random bits) at the last millisecond before
 the 41-bit time field wraps, with the largest random part. -/
@@ -161,6 +207,12 @@ theorem c20_str_total (g : StrGen) (n : Nat) (ws : List Nat) (hne : ws ≠ [])
   · omega
   · exact ⟨out, rest, hd⟩
 
+/-- `Generate(0)` returns the empty string; the loop initialiser still reads one random
+word (and only one). -/
+theorem c20_str_zero (g : StrGen) (w : Nat) (ws : List Nat) :
+    generate g 0 (w :: ws) = .done [] ws :=
+  generate_zero g w ws
+
 /-- The returned Go string (`string` of the runes written) decodes back to exactly the
 `n` runes written, for a generator built by `NewStrGenerator` from ANY byte string as
 character set (multi-byte runes; invalid bytes count as U+FFFD). -/
@@ -193,6 +245,13 @@ theorem c20_addrule_sorted (xs : List Rule) (hx : ∀ v ∈ xs, v.OK) :
     Sorted 0 (xs.foldl addRule []) ∧ ∀ v ∈ xs.foldl addRule [], v.OK :=
   foldl_addRule_ok xs hx [] trivial (by simp)
 
+/-- `AddRule` stores exactly the rules it was given (a permutation), whatever the order of
+the calls. -/
+theorem c20_addrule_perm (xs : List Rule) : (xs.foldl addRule []).Perm xs := by
+  have := foldl_addRule_perm xs []
+  simp only [List.append_nil] at this
+  exact this.trans (List.reverse_perm xs)
+
 /-- `Min(diff) ≤ Generate(id, diff) ≤ Max(diff)`, and none of the three panics, for every
 rule list sorted by period with positive parameters (each fitting a Go `int`: `Rule.OK`), every\nhash value and every `diff`.  (Before the repair of F14 `getRand` used `uint32(max)` and a\nparameter that is a multiple of 2^32 divided by zero: `Golib/Findings/C20Count.lean`.) -/
 theorem c20_count_bounds (rs : List Rule) (hs : Sorted 0 rs) (hok : ∀ v ∈ rs, v.OK)
@@ -222,6 +281,33 @@ theorem c20_count_mono (rs : List Rule) (hs : Sorted 0 rs) (hok : ∀ v ∈ rs, 
     · obtain ⟨g1, g2, e1, e2, hle⟩ := genLoop_mono hn d1 d2 hd rs 0 0 hs hok (by omega)
       exact ⟨g1, g2, by simp only [countGenerate, h1, if_false]; exact e1,
         by simp only [countGenerate, h2, if_false]; exact e2, hle⟩
+
+/-- Order-independence among equal periods: `sort.Slice` is not stable, so the model's
+insertion order (`c20_addrule_sorted`) is only one of the orders `AddRule` may leave.  The
+property does not depend on it: for EVERY arrangement `rs` of the given rules that is sorted
+by period (rules of equal period in any relative order), bounds and monotonicity hold.
+(`Generate` itself does depend on that order — of two rules with the same period only the
+first contributes its slope — but `Min`/`Max` read the same slice.) -/
+theorem c20_count_any_order (xs rs : List Rule) (hp : rs.Perm xs) (hs : Sorted 0 rs)
+    (hx : ∀ v ∈ xs, v.OK) (hn : Nat) (d1 d2 : Int) (hd : d1 ≤ d2) :
+    ∃ g1 g2 mn mx, countGenerate rs hn d1 = some g1 ∧ countGenerate rs hn d2 = some g2 ∧
+      countMin rs d2 = some mn ∧ countMax rs d2 = some mx ∧ g1 ≤ g2 ∧ mn ≤ g2 ∧ g2 ≤ mx := by
+  have hok : ∀ v ∈ rs, v.OK := fun v hv => hx v (hp.mem_iff.mp hv)
+  obtain ⟨g1, g2, e1, e2, hle⟩ := c20_count_mono rs hs hok hn d1 d2 hd
+  obtain ⟨g, mn, mx, e3, e4, e5, b1, b2, _⟩ := c20_count_bounds rs hs hok hn d2
+  rw [e2] at e3
+  cases e3
+  exact ⟨g1, g2, mn, mx, e1, e2, e4, e5, hle, b1, b2⟩
+
+/-- Non-vacuity: two rules with the same period in both orders: both arrangements are
+sorted, `Generate` differs between them (only the first rule's slope counts), and each
+stays within its own `Min`/`Max`. -/
+example : Sorted 0 [⟨10, 5, 1, 4⟩, ⟨10, 7, 2, 3⟩] ∧ Sorted 0 [⟨10, 7, 2, 3⟩, ⟨10, 5, 1, 4⟩] ∧
+    countGenerate [⟨10, 5, 1, 4⟩, ⟨10, 7, 2, 3⟩] 2 9 = some 27 ∧
+    countGenerate [⟨10, 7, 2, 3⟩, ⟨10, 5, 1, 4⟩] 2 9 = some 12 ∧
+    countMax [⟨10, 7, 2, 3⟩, ⟨10, 5, 1, 4⟩] 9 = some 12 := by
+  refine ⟨⟨by decide, by decide, trivial⟩, ⟨by decide, by decide, trivial⟩, by decide +kernel,
+    by decide +kernel, by decide +kernel⟩
 
 /-- Non-vacuity: the rule set of the package's own test (with its zero parameters made
 positive) is sorted and positive; a value across two period boundaries. -/
